@@ -1,12 +1,9 @@
 package g_shard
 
 import (
-	"archive/tar"
 	"bytes"
 	"context"
 	"fmt"
-	"io"
-	"os"
 	"path/filepath"
 	"testing"
 	"time"
@@ -17,50 +14,81 @@ import (
 	"verifharness/vkit/sk"
 )
 
-type probeFS struct {
-	stats []tsm1.ExtFileStat
-}
-
-func (f *probeFS) Stats() []tsm1.ExtFileStat { return f.stats }
-func (f *probeFS) LastModified() time.Time  { return time.Now().Add(24 * time.Hour) }
-func (f *probeFS) ParseFileName(p string) (int, int, error) {
-	return tsm1.DefaultParseFileName(p)
-}
-func (f *probeFS) NextGeneration() int                           { return 1 }
-func (f *probeFS) TSMReader(p string) (*tsm1.TSMReader, error) { return nil, fmt.Errorf("no reader") }
-func (f *probeFS) SupportsCompactionPlanning() bool             { return true }
-
 func TestProbePlanner(t *testing.T) {
-	mk := func(gen, seq int, size uint32, fbc int) tsm1.ExtFileStat {
-		return tsm1.ExtFileStat{FileStat: tsm1.FileStat{Path: fmt.Sprintf("%09d-%09d.tsm", gen, seq), Size: size, Generation: gen, Sequence: seq}, FirstBlockCount: fbc}
+	mk := func(gen, seq int, size uint32, fbc int) c05File {
+		return c05File{Gen: gen, Seq: seq, Size: size, FBC: fbc}
 	}
-	fs := &probeFS{stats: []tsm1.ExtFileStat{mk(1, 4, 100, 10), mk(2, 4, 2200<<20, 1000), mk(3, 4, 100, 10), mk(4, 4, 100, 10)}}
-	p := tsm1.NewDefaultPlanner(fs, time.Hour)
+	st := &c05Store{files: []c05File{mk(1, 4, 100<<20, 1000), mk(2, 4, 2100<<20, 1000), mk(3, 4, 100<<20, 1000)}, changed: true}
+	p := tsm1.NewDefaultPlanner(st, time.Hour)
 	p.ForceFull()
-	g, n := p.Plan(p.FindGenerations(), time.Now())
-	t.Logf("forcefull: %v %d", g, n)
+	g, _ := p.Plan(p.FindGenerations(), time.Now())
+	t.Logf("oversize forceFull: %v", g)
 	p.Release(g)
-	g, n = p.Plan(p.FindGenerations(), time.Now().Add(-1000*time.Hour))
-	t.Logf("cold: %v %d", g, n)
+	g, _ = p.Plan(p.FindGenerations(), time.Now().Add(-1000*time.Hour))
+	t.Logf("oversize cold: %v", g)
+	p.Release(g)
+
+	st = &c05Store{files: []c05File{mk(1, 2, 1<<20, 10), mk(2, 1, 1<<20, 10), mk(3, 1, 1<<20, 10), mk(4, 2, 1<<20, 10)}, changed: true}
+	p = tsm1.NewDefaultPlanner(st, time.Hour)
+	gens := p.FindGenerations()
+	l1, _ := p.PlanLevel(gens, 1)
+	t.Logf("in_use: PlanLevel(1): %v", l1)
+	g, _ = p.Plan(gens, time.Now().Add(-1000*time.Hour))
+	t.Logf("in_use: Plan(cold): %v", g)
 }
 
-func tarList(b []byte) string {
-	tr := tar.NewReader(bytes.NewReader(b))
-	s := ""
-	for {
-		h, err := tr.Next()
-		if err != nil {
-			if err != io.EOF {
-				s += " ERR:" + err.Error()
-			}
-			break
-		}
-		s += fmt.Sprintf(" %s(%d)", h.Name, h.Size)
+func TestProbeC05Real(t *testing.T) {
+	s, err := sk.Open(t.TempDir(), sk.Opts{NoWAL: true})
+	if err != nil {
+		t.Fatal(err)
 	}
-	return s
+	defer s.Close()
+	tags := map[string]string{"h": "a"}
+	key := sk.SeriesKey("m", tags)
+	w := func(ts int64, v int64) {
+		if err := s.Write([]models.Point{sk.Point("m", tags, map[string]sk.Val{"i": sk.IntVal(v)}, ts)}); err != nil {
+			t.Fatal(err)
+		}
+	}
+	e := s.Eng()
+	one := func(name string) tsm1.CompactionGroup {
+		return tsm1.CompactionGroup{filepath.Join(s.DataPath(), name)}
+	}
+	w(30, 1)
+	s.Snapshot()                                                          // 1-01
+	e.VerifCompactGroup(one("000000001-000000001.tsm"), true, 1, 0) // 1-02
+	e.VerifCompactGroup(one("000000001-000000002.tsm"), true, 2, 0) // 1-03
+	w(30, 2)
+	w(40, 9)
+	s.Snapshot()                                                          // 2-01
+	e.VerifCompactGroup(one("000000002-000000001.tsm"), true, 1, 0) // 2-02
+	s.DeleteRange([]string{key}, 40, 40)                                  // tombstone on 2-02
+	w(50, 3)
+	s.Snapshot() // 3-01
+	t.Logf("files: %v", s.TSMFiles())
+	got, _ := s.Read(key, "i", sk.MinT, sk.MaxT, true)
+	t.Logf("before: %s", sk.FmtPts(got))
+	pl := e.CompactionPlan
+	gens := pl.FindGenerations()
+	l2, _ := pl.PlanLevel(gens, 2)
+	t.Logf("PlanLevel(2): %v", l2)
+	pl.ForceFull()
+	full, _ := pl.Plan(gens, time.Now())
+	t.Logf("Plan(forceFull): %v", full)
+	for _, g := range full {
+		e.VerifFullCompactGroup(g, 0)
+	}
+	pl.Release(full)
+	for _, g := range l2 {
+		e.VerifCompactGroup(g, true, 2, 0)
+	}
+	pl.Release(l2)
+	t.Logf("files: %v", s.TSMFiles())
+	got, _ = s.Read(key, "i", sk.MinT, sk.MaxT, true)
+	t.Logf("after: %s", sk.FmtPts(got))
 }
 
-func TestProbeBackup(t *testing.T) {
+func TestProbeC38(t *testing.T) {
 	dir := t.TempDir()
 	s, err := sk.Open(filepath.Join(dir, "src"), sk.Opts{})
 	if err != nil {
@@ -71,50 +99,55 @@ func TestProbeBackup(t *testing.T) {
 	for i := 0; i < 10; i++ {
 		s.Write([]models.Point{sk.Point("cpu", tags, map[string]sk.Val{"v": sk.IntVal(int64(i))}, int64(i*10))})
 	}
-	s.Write([]models.Point{sk.Point("mem", tags, map[string]sk.Val{"v": sk.IntVal(int64(77))}, int64(90))})
 	s.Snapshot()
-	// export without tombstone
+	// 1. block granularity
 	var buf bytes.Buffer
 	err = s.Sh.Export(&buf, "db0/rp0/1", time.Unix(0, 25), time.Unix(0, 55))
-	t.Logf("export err=%v tar=%s", err, tarList(buf.Bytes()))
-	d, err := sk.Open(filepath.Join(dir, "imp"), sk.Opts{})
-	if err != nil {
-		t.Fatal(err)
-	}
-	err = d.Sh.Import(bytes.NewReader(buf.Bytes()), "db0/rp0/1")
-	got, e2 := d.Read(key, "v", sk.MinT, sk.MaxT, true)
-	t.Logf("import err=%v read=%s %v files=%v", err, sk.FmtPts(got), e2, d.TSMFiles())
-
+	d, _ := sk.Open(filepath.Join(dir, "imp"), sk.Opts{})
+	err2 := d.Sh.Import(bytes.NewReader(buf.Bytes()), "db0/rp0/1")
+	got, _ := d.Read(key, "v", sk.MinT, sk.MaxT, true)
+	t.Logf("export[25,55] err=%v import err=%v read=%s", err, err2, sk.FmtPts(got))
+	d.Close()
+	// 2. no block in range
+	s2, _ := sk.Open(filepath.Join(dir, "src2"), sk.Opts{})
+	s2.Write([]models.Point{sk.Point("cpu", tags, map[string]sk.Val{"v": sk.IntVal(1)}, 0), sk.Point("mem", tags, map[string]sk.Val{"v": sk.IntVal(2)}, 100)})
+	s2.Snapshot()
 	buf.Reset()
-	err = s.Sh.Export(&buf, "db0/rp0/1", time.Unix(0, 91), time.Unix(0, 95))
-	t.Logf("export-noblock err=%v tar=%s", err, tarList(buf.Bytes()))
-
-	// delete -> tombstone
-	if err := s.DeleteRange([]string{key}, 20, 40); err != nil {
-		t.Fatal(err)
-	}
-	ents, _ := os.ReadDir(s.DataPath())
-	for _, e := range ents {
-		t.Logf("src file %s", e.Name())
-	}
+	err = s2.Sh.Export(&buf, "db0/rp0/1", time.Unix(0, 40), time.Unix(0, 50))
+	t.Logf("export[40,50] (file spans [0,100], no block in range) err=%v", err)
+	s2.Close()
+	// 3. tombstone
+	s.DeleteRange([]string{key}, 20, 40)
 	buf.Reset()
-	err = s.Sh.Export(&buf, "db0/rp0/1", time.Unix(0, 25), time.Unix(0, 55))
-	t.Logf("export(tombstone) err=%v tar=%s", err, tarList(buf.Bytes()))
-
+	err = s.Sh.Export(&buf, "db0/rp0/1", time.Unix(0, 0), time.Unix(0, 100))
+	t.Logf("export with tombstone err=%v", err)
+	// 4. restore loses tombstones
 	buf.Reset()
 	err = s.Sh.Backup(&buf, "db0/rp0/1", time.Time{})
-	t.Logf("backup err=%v tar=%s", err, tarList(buf.Bytes()))
-	r, err := sk.Open(filepath.Join(dir, "rst"), sk.Opts{})
+	ents, _ := c38Untar(buf.Bytes())
+	r, _ := sk.Open(filepath.Join(dir, "rst"), sk.Opts{})
+	err2 = r.Sh.Restore(context.Background(), bytes.NewReader(buf.Bytes()), "db0/rp0/1")
+	got, _ = r.Read(key, "v", sk.MinT, sk.MaxT, true)
+	src, _ := s.Read(key, "v", sk.MinT, sk.MaxT, true)
+	t.Logf("backup err=%v archive=%v restore err=%v\n source  =%s\n restored=%s\n restored files=%v", err, c38Names(ents), err2, sk.FmtPts(src), sk.FmtPts(got), c38DataFiles(r.DataPath()))
+}
+
+func TestProbeC40(t *testing.T) {
+	s, err := sk.Open(t.TempDir(), sk.Opts{})
 	if err != nil {
 		t.Fatal(err)
 	}
-	err = r.Sh.Restore(context.Background(), bytes.NewReader(buf.Bytes()), "db0/rp0/1")
-	got, e2 = r.Read(key, "v", sk.MinT, sk.MaxT, true)
-	t.Logf("restore err=%v read=%s %v files=%v", err, sk.FmtPts(got), e2, r.TSMFiles())
-	got, e2 = s.Read(key, "v", sk.MinT, sk.MaxT, true)
-	t.Logf("source read=%s %v", sk.FmtPts(got), e2)
-	ents, _ = os.ReadDir(r.DataPath())
-	for _, e := range ents {
-		t.Logf("rst file %s", e.Name())
-	}
+	tags := models.NewTags(map[string]string{"h": "a"})
+	p1, _ := models.NewPoint("m", tags, models.Fields{"time": int64(1), "v": int64(1)}, time.Unix(0, 0))
+	p2, _ := models.NewPoint("m", tags, models.Fields{"time": true, "v": int64(2)}, time.Unix(0, 10))
+	err = s.Write([]models.Point{p1, p2})
+	key := sk.SeriesKey("m", map[string]string{"h": "a"})
+	got, _ := s.Read(key, "v", sk.MinT, sk.MaxT, true)
+	t.Logf("write err=%v (%T); read v=%s; cache time=%v", err, err, sk.FmtPts(got), s.Eng().Cache.Values(tsm1.SeriesFieldKeyBytes(key, "time")))
+	s.Reopen()
+	got, _ = s.Read(key, "v", sk.MinT, sk.MaxT, true)
+	t.Logf("after reopen: read v=%s", sk.FmtPts(got))
+	err = s.Write([]models.Point{p1})
+	t.Logf("single point with time field: err=%v", err)
+	fmt.Println()
 }
